@@ -172,6 +172,38 @@ def c12(req, out):
     if pa.log != pb.log:
         out.append(dict(what="a solver created earlier (dimension 6, default parameters) changed the trial sequence of a "
                              "later default-constructed solver", observed=pa.log[:2], expected=pb.log[:2]))
+    # ONE parameters object (with a start point, refinement on) shared by two solvers: the user's objects are inputs - a
+    # solver must leave them as it found them, and the second solver must behave as if it were alone
+    for N in (1, 2):
+        lo, up = boxes(N)[0]
+        spv = [lo[j] + 0.3137 * (up[j] - lo[j]) for j in range(N)]
+        par = SolverParameters(r=2.5, eps=0.05, itersLimit=60, refineSolution=True,
+                               startPoint=Point(np.array(spv, dtype=np.double), []))
+        pa = RecProblem(N, lo, up, kind=0)
+        sa = Solver(pa, par)
+        sola = quiet(sa.Solve)
+        snap_a = snapshot(sola)
+        n += 1
+        now = [float(t) for t in par.startPoint.floatVariables]
+        if now != spv or (par.r, par.eps, par.itersLimit, par.refineSolution) != (2.5, 0.05, 60, True):
+            out.append(dict(what="a solver modified the SolverParameters object it was given (shared with other solvers)",
+                            start_point_before=spv, start_point_after=now))
+            return n
+        pb = RecProblem(N, lo, up, kind=0)
+        sb = Solver(pb, par)
+        solb = quiet(sb.Solve)
+        pc = RecProblem(N, lo, up, kind=0)
+        sc_ = Solver(pc, SolverParameters(r=2.5, eps=0.05, itersLimit=60, refineSolution=True,
+                                          startPoint=Point(np.array(spv, dtype=np.double), [])))
+        solc = quiet(sc_.Solve)
+        if pb.log != pc.log or snapshot(solb) != snapshot(solc):
+            out.append(dict(what="a solver sharing its parameters object with an earlier solver behaves differently from the "
+                                 "same solver run alone", observed=snapshot(solb), expected=snapshot(solc)))
+            return n
+        if snapshot(sola) != snap_a:
+            out.append(dict(what="a Solution returned earlier changed after another solver (same parameters object) ran",
+                            before=snap_a, after=snapshot(sola)))
+            return n
     return n
 
 
